@@ -336,6 +336,8 @@ class S:
         if not isinstance(o, S):
             if not _is_num(o):
                 return NotImplemented
+            if isinstance(o, (float, np.floating)) and math.isinf(o):
+                return _ext_real(self, float(o), op, swap)
             o = S.lift(o)
         a, b = (o, self) if swap else (self, o)
         return _arith(a, b, op)
@@ -484,6 +486,10 @@ class S:
             return f"S({s.const})"
         return f"S(~{float(s.w):.5g})"
 
+    def __format__(s, spec):
+        # logging / f-strings in the code under check: formatting is not the subject, never concretise
+        return repr(s)
+
 
 import operator as _op
 
@@ -556,6 +562,32 @@ def _arith(a, b, op):
     if ac == 0:
         return a
     return S(a.t / b.t, a.w / b.w)
+
+
+def _ext_real(s, inf, op, swap):
+    """arithmetic of a symbolic real with +-inf (kThr = np.inf): extended reals, sign decided as a branch."""
+    if op == "+":
+        return inf
+    if op == "-":
+        return inf if swap else -inf
+    if op == "*":
+        if s.const is not None:
+            if s.const == 0:
+                return float("nan")
+            return inf if s.const > 0 else -inf
+        if bool(s > 0):
+            return inf
+        if bool(s < 0):
+            return -inf
+        return float("nan")
+    # division
+    if not swap:
+        return S.lift(0)  # s / inf
+    if bool(s > 0):
+        return inf
+    if bool(s < 0):
+        return -inf
+    return float("nan")
 
 
 class SBool:
